@@ -95,12 +95,12 @@ MIN_COUNTERS = {
               "restart_execs_checked": 300, "stored_points_not_reexecuted": 100, "restarts_cheaper_than_reference": 20,
               "loaded_entries_kept_checked": 100, "optimum_vs_loaded_checked": 20, "replay_history_checked": 22,
               "child_anchors_distinct": 10},
-    "thorough": {"configurations": 11, "prefilled_first_crashes": 22, "crash_points": 400, "crash_points_prefilled": 150,
-                 "census_checked": 400, "backups_loaded": 350, "backup_values_checked": 5000,
-                 "backup_vs_reference_checked": 350, "crash_before_first_export": 8,
-                 "iter_backup_last_point_partial": 100, "restarts_checked": 400, "restart_execs_checked": 5000,
-                 "stored_points_not_reexecuted": 1500, "restarts_cheaper_than_reference": 300,
-                 "loaded_entries_kept_checked": 1500, "optimum_vs_loaded_checked": 300, "replay_history_checked": 300,
+    "thorough": {"configurations": 11, "prefilled_first_crashes": 18, "crash_points": 280, "crash_points_prefilled": 160,
+                 "census_checked": 280, "backups_loaded": 250, "backup_values_checked": 2700,
+                 "backup_vs_reference_checked": 240, "crash_before_first_export": 20,
+                 "iter_backup_last_point_partial": 110, "restarts_checked": 280, "restart_execs_checked": 6000,
+                 "stored_points_not_reexecuted": 800, "restarts_cheaper_than_reference": 200,
+                 "loaded_entries_kept_checked": 900, "optimum_vs_loaded_checked": 200, "replay_history_checked": 250,
                  "child_anchors_distinct": 10},
 }
 SHARD_TIMEOUT = {"quick": 1800, "thorough": 3600}  # caps only; ~40 s / ~150 s per shard on an idle machine
@@ -698,7 +698,9 @@ def first_crash_points(K, tier):
     if K < 3:
         return []
     if tier == "thorough":
-        return sorted({max(2, K // 3), max(2, (2 * K) // 3)})
+        a = max(2, K // 3)
+        b = max(a + 1, (2 * K) // 3)
+        return [a, b] if b <= K else [a]
     return [max(2, K // 2)]
 
 
